@@ -68,9 +68,14 @@ class MultisphereFailure(Exception):
                 "your scatterer is unphysical.")
 
 class TmatrixFailure(Exception):
-    def __init__(self, logfilestr):
+    def __init__(self, logfilestr=None, reason=None):
             self.logfilestr = logfilestr
+            self.reason = reason
     def __str__(self):
+        if self.logfilestr is None:
+            return ("Tmatrix calculation failed (" + str(self.reason) + "). "
+                    "This might be because your scatterer's size or aspect "
+                    "ratio is too large for default parameters.")
         with open(self.logfilestr) as logfile:
             reason=list(logfile)[-1]
         return("Tmatrix calculation failed. This might be because your scatterer's size or aspect ratio is too large for default parameters. \n Tmatrix error message: " + reason + "Full details are available in " + self.logfilestr)
